@@ -4,7 +4,7 @@ From Coq Require Import List NArith Bool Lia String.
 From Breadlog Require Import Model.Peg Model.Text Model.Regex Model.Glue Model.Tables.
 From Breadlog Require Import Gen.Grammar Gen.Consts.
 From Breadlog Require Import Gen.Regexes.
-From Breadlog Require Import Proofs.PegFacts Proofs.RuleLemmas Proofs.GlueSpec Proofs.RegexFacts Proofs.CommentRegex.
+From Breadlog Require Import Proofs.PegFacts Proofs.RuleLemmas Proofs.GlueSpec Proofs.RegexFacts Proofs.CommentRegex Proofs.CommentSpec.
 From Breadlog Require Import Properties.Common.
 Import ListNotations.
 Open Scope N_scope.
@@ -92,8 +92,52 @@ Theorem C14_trailing_block_comment_directive : forall d l pre body ls,
   scan_lines the_params d re_RUST_COMMENT_PATTERN (l :: ls) = text_eqb (norm body) d.
 Proof. exact directive_on_trailing_block_comment. Qed.
 
-(* NOT proved: several comments on one line, a block comment followed by more code, code that itself
-   contains a slash before the comment; covered by the oracle campaign and the enumerated placements. *)
+(* EVERY LINE (Proofs/CommentSpec.v: `search_spec`, a closed form of the backtracking matcher on the translated
+   regex for every text without a newline; `rep_m_backoff`: greedy `.+` followed by any continuation tries the
+   split points from the longest to the shortest).  The nearest non-blank line above the statement, trimmed,
+   decides: the directive is in force iff the body of the LEFTMOST comment the regex sees on it
+   (`first_comment`: the text after the first "//" that is followed by a character, or between "/*" and the LAST
+   "*/" of the line with a character between, whichever starts first -- wherever on the line, whatever stands
+   before and after it), lower-cased and trimmed, is the directive.  `dots` = no newline, scalar values only. *)
+Theorem C14_directive_scan_every_line : forall d l ls,
+  hd_error d <> Some 47 -> dots (trim is_ws_tab l) = true ->
+  scan_lines the_params d re_RUST_COMMENT_PATTERN (l :: ls) =
+  match trim is_ws_tab l with
+  | [] => scan_lines the_params d re_RUST_COMMENT_PATTERN ls
+  | l' => match first_comment l' with
+          | Some b => text_eqb (norm b) d
+          | None => false
+          end
+  end.
+Proof. exact scan_lines_spec. Qed.
+
+(* THE DIRECTIVE DECISION IN CLOSED FORM, for every text whose characters are scalar values (every file that
+   decodes, Utf8Facts.decode_scalars) and every position the glue asks at: of the lines of the text up to and
+   including the first character of the statement, in reverse and without the statement's own line, the nearest
+   non-blank one decides by the leftmost comment the regex sees on it (`decide` / `verdict` / `first_comment`).
+   No hypothesis about the shape of any line is left. *)
+Theorem C14_directive_decision : forall d t p,
+  hd_error d <> Some 47 -> (forall c, In c t -> c <= 1114111) ->
+  directive_check the_params d t p (p_comment_re the_params) =
+  match first_char_len t p with
+  | None => None
+  | Some l => match take_bytes t (p + l) with
+              | None => None
+              | Some pre => Some (decide d (tl (rev (lines pre))))
+              end
+  end.
+Proof. exact directive_check_closed. Qed.
+
+(* what that means on the shapes the earlier theorems do not cover (evaluated with the closed form): a block
+   comment followed by code is read; of two block comments on one line the regex takes everything from the first
+   opener to the last closer, so neither is a directive; a "//" inside a string literal earlier on the line
+   hides a later comment (the regex knows no strings -- the behaviour behind known finding F12) *)
+Example C14_every_line_examples :
+  first_comment [47;42;32;98;114;101;97;100;108;111;103;58;105;103;110;111;114;101;32;42;47;32;120;40;41;59] = Some [32;98;114;101;97;100;108;111;103;58;105;103;110;111;114;101;32] /\
+  first_comment [47;42;32;97;32;42;47;32;47;42;32;98;114;101;97;100;108;111;103;58;105;103;110;111;114;101;32;42;47] = Some [32;97;32;42;47;32;47;42;32;98;114;101;97;100;108;111;103;58;105;103;110;111;114;101;32] /\
+  first_comment [108;101;116;32;117;32;61;32;34;104;116;116;112;58;47;47;120;34;59;32;47;47;32;98;114;101;97;100;108;111;103;58;105;103;110;111;114;101] = Some [120;34;59;32;47;47;32;98;114;101;97;100;108;111;103;58;105;103;110;111;114;101] /\
+  first_comment [97;32;47;32;98;59;32;99;32;47;47] = None.
+Proof. vm_compute. repeat split; reflexivity. Qed.
 
 (* non-vacuity on real text through the generated grammar and the translated comment regex *)
 Example C14_nonvacuous :
@@ -109,6 +153,8 @@ Example C14_nonvacuous :
              = Done [e] /\ e_kind e = KStructuredNew).
 Proof. cbv zeta. repeat split; eexists; vm_compute; repeat split; reflexivity. Qed.
 
+Print Assumptions C14_directive_scan_every_line.
+Print Assumptions C14_directive_decision.
 Print Assumptions C14_blank_lines_are_skipped.
 Print Assumptions C14_code_line_in_between.
 Print Assumptions C14_only_nearest_line_matters.
